@@ -86,27 +86,44 @@ def check_lookups(ctx, console, model, log, universe):
     if not check_console_style(ctx, console, log):
         return False
     top = model[-1]
-    for name in universe:
+
+    def expect(name):
+        if name in top:
+            return top[name], None
+        d = dict(DEFS).get(name)
+        if d is not None:
+            return d, None
+        # a theme name that is not defined now: is it a valid definition by itself?
+        if name in ("red", "bold"):
+            return {"attrs": {"bold": True} if name == "bold" else {},
+                    "fg": ("standard", 1, None) if name == "red" else None, "bg": None, "link": None}, None
+        return None, "MissingStyle"
+
+    names = list(universe)
+    for i, name in enumerate(names):
         ctx.count("mon.lookup")
         try:
             got = G.view(console.get_style(name))
             err = None
         except MissingStyle:
             got, err = None, "MissingStyle"
-        if name in top:
-            want, werr = top[name], None
-        else:
-            d = dict(DEFS).get(name)
-            if d is not None:
-                want, werr = d, None
-            else:
-                # a theme name that is not defined now: is it a valid definition by itself?
-                if name in ("red", "bold"):
-                    want = {"attrs": {"bold": True} if name == "bold" else {},
-                            "fg": ("standard", 1, None) if name == "red" else None, "bg": None, "link": None}
-                    werr = None
-                else:
-                    want, werr = None, "MissingStyle"
+        want, werr = expect(name)
+        if werr is not None and len(names) > 1:
+            # the documented fallback: get_style(name, default=other) - `other` is a style NAME or definition and
+            # resolves through the theme stack like any other lookup
+            other = names[(i + 1) % len(names)]
+            ctx.count("mon.lookup_with_default")
+            try:
+                gd, ed = G.view(console.get_style(name, default=other)), None
+            except MissingStyle:
+                gd, ed = None, "MissingStyle"
+            except Exception as e:
+                gd, ed = None, type(e).__name__
+            if (gd, ed) != expect(other):
+                ctx.violation("lookup-with-default-differs-from-reference-stack",
+                              {"log": log, "name": name, "default": other, "got": gd or ed,
+                               "want": expect(other)[0] or expect(other)[1], "depth": len(model)})
+                return False
         if (got, err) != (want, werr):
             defined_in = [i for i, d in enumerate(model) if name in d]
             ctx.violation("lookup-differs-from-reference-stack",
